@@ -440,8 +440,11 @@ class SymEx:
             if cur[0] == "iter":
                 items, pos = cur[1], cur[2]
                 if pos < len(items):
-                    self.write(st, a[1], a[2], [_thaw(e) for e in a[3]], ("iter", items, pos + 1), loc)
-                    return ret(("agg", "std::option::Option", "Some", (("ref", items[pos]),)))
+                    self.write(st, a[1], a[2], [_thaw(e) for e in a[3]], ("iter", items, pos + 1) + tuple(cur[3:]), loc)
+                    # an array iterated by value (`for p in [a, b]`) hands out the elements, one
+                    # iterated through a reference / slice hands out references to them
+                    byval = len(cur) > 3 and cur[3] == "byval"
+                    return ret(("agg", "std::option::Option", "Some", ((items[pos] if byval else ("ref", items[pos])),)))
                 return ret(("agg", "std::option::Option", "None", ()))
             if cur[0] == "agg" and cur[1].endswith("ops::Range") and all(x[0] == "const" for x in cur[3]):
                 lo, hi = cur[3][0][1], cur[3][1][1]
@@ -597,7 +600,7 @@ def _table_iter(src):
     if v[0] == "iter":
         return v
     if v[0] == "agg" and v[1] == "array":
-        return ("iter", tuple(v[3]), 0)
+        return ("iter", tuple(v[3]), 0) if src[0] in ("ref", "deref") else ("iter", tuple(v[3]), 0, "byval")
     if v[0] == "agg" and v[1].endswith("ops::Range"):
         return v
     return None
